@@ -757,3 +757,34 @@ ASSUMPTIONS = [
 PROOF_MODULES = PROOF_MODULES + [m for m in ['Compute.Lemmas.FlModelGrid', 'Compute.Props.RoundingGrid'] if m not in PROOF_MODULES]
 REQUIRED_THEOREMS = REQUIRED_THEOREMS + [t for t in ['Cv.FlModel.grid_abs_sub_le', 'Cv.FlModel.grid_idem', 'Cv.FlModel.grid_mono', 'Cv.FlModel.grid_rnd_one', 'Cv.FlModel.grid_rnd_natCast', 'Cv.FlModel.grid_rnd_dyadic', 'Cv.FlModel.f64grid_u', 'Cv.FlModel.f64grid_mono'] if t not in REQUIRED_THEOREMS]
 NOT_PROVED = list(NOT_PROVED) + ['theorems named stdmodel_* hold in the idealised standard model (fl(x) = x(1+d) for every operation, library functions with relative error <= u_f for every argument) at u = 2^-53; they describe binary64 only where nothing overflows or underflows (for exp: arguments in [-708.39, 709.78]); outside that range computed values may be exactly 0 or inf', 'variance and covariance rounding bounds require n >= 2 (n >= 1 for the population versions); smaller sizes are excluded (the code returns NaN there)', 'FlModel has a genuine instance, FlModel.grid p (radix 2, p digits, round to nearest, unbounded exponent; f64grid has u = 2^-53), proved to satisfy the standard model and to be idempotent and monotone, with integers <= 2^p and dyadics exact (Lemmas/FlModelGrid); headline rounding theorems are instantiated on it (Props/RoundingGrid); overflow and underflow remain outside the model']
+
+# --- FINAL claim texts (review round 2): literal, complete, replaces everything accumulated above.
+REQUIRED_THEOREMS = REQUIRED_THEOREMS + [t for t in ['Cv.C08.argmin_all_ge_seed', 'Cv.C08.sampleVar_scale'] if t not in REQUIRED_THEOREMS]
+NOT_PROVED = [
+    "the rounding clause of the property (within the bound of a numerically stable algorithm; unchanged by a constant shift even "
+    "when the mean is far larger than the spread) is DECIDED by the bit-exact tie plus the exact-rational oracle with the "
+    "condition-number-scaled bound, not by a theorem about binary64. What IS proved is the form of that bound in the standard model "
+    "fl(x) = x(1+d), |d| <= u, for every operation and every real (no overflow, no underflow): both mean algorithms (Props/Rounding), "
+    "the two-pass covariance / variance and the Welford M2 / var / sample_var (Props/Rounding2), the one-pass covariance "
+    "(Props/Rounding5 onepass_error) and the online covariance (Props/Rounding6 online_error); variance and covariance bounds carry "
+    "the guards n >= 2 (sample) / n >= 1 (population, one-pass tail). The model has a genuine instance, FlModel.grid p (radix 2, p "
+    "digits, round to nearest with ties half-up - not ties-to-even -, unbounded exponent; f64grid has u = 2^-53), proved to satisfy "
+    "the standard model, to be idempotent and monotone, with integers <= 2^p and dyadics exact (Lemmas/FlModelGrid), and the headline "
+    "bounds are instantiated on it (Props/RoundingGrid); binary64 differs from f64grid by its finite exponent range and its tie rule",
+    "Rounding.mean_error and Rounding.mean_error_add_two (file not owned by this property) carry no guard n >= 1: at n = 0 they speak "
+    "about the convention x/0 = 0, not about the code (which returns NaN)",
+    "NO rounding theorem exists for std, sample_std (one square root after var) and hist_bin_centers (one addition, one halving): "
+    "oracle only (std: |r^2 - var| within the variance bound + 4 eps var; hist: one rounding of the exact midpoint)",
+    "argmin/argmax for data containing +inf/-inf or values beyond the f64::MAX/f64::MIN seeds: the first-index theorems assume every "
+    "datum <= seed (>= seed), true of all finite doubles; outside, theorem argmin_all_ge_seed shows argmin [inf, MAX] = 0",
+    "signed zeros: the order theorems are over a linear order, where +0 and -0 are one point; which zero min/max return and that "
+    "argmin/argmax treat them as a tie is decided by the oracle and the correspondence only",
+    "the unrolled utils::sum (anchor mechanism 2) is NOT regenerated from the source: Generated/SrcC08Loops maps the name `sum` to "
+    "the hand model Cv.sum8; its body and tail are tied by the bit-exact correspondence only (lengths 0..1e4 incl. every residue "
+    "mod 8), and sum8 = List.sum is a theorem (Lemmas/C08 sum8_eq)",
+    "the Vector / Matrix wrappers are one-line forwards (`$fn(&self.v)`, `self.data.$fn()`); they have no separate model and are "
+    "tied by running them (call forms 1 and 2) against the model of the free function",
+    "theorems named stdmodel_* hold in the idealised standard model at u = 2^-53; they describe binary64 only where nothing "
+    "overflows or underflows",
+]
+REQUIRED_THEOREMS = REQUIRED_THEOREMS + [t for t in ['Cv.C08.covariance_algorithms_agree', 'Cv.C08.matArgmin_zero_cols'] if t not in REQUIRED_THEOREMS]
